@@ -94,32 +94,34 @@ func TestC15(t *testing.T) {
 	maxBlocks := h.Scale(25, 45)
 	rapid.Check(t, func(rt *rapid.T) {
 		p := genParams(rt, fmt.Sprint(h.Seed))
-		two := rapid.IntRange(0, 2).Draw(rt, "two-replicas") != 0
+		u := hist.NewU(rt)
+		two := u.N(3, "two-replicas") != 0
 		tr := &hist.Trace{Params: p, Roles: roles(p, two), Profile: "bridge"}
-		nb := rapid.IntRange(6, maxBlocks).Draw(rt, "nblocks")
+		nb := u.Range(6, maxBlocks, "nblocks")
 		var g *gen
 		blocks := 0
 		v, m := execute(h, tr, func(w *hist.World, m *monitor, i int) (hist.Step, bool) {
 			if g == nil {
-				g = &gen{rt: rt, w: w, m: m, excl: h.Excluded, nonce: map[string]uint64{}, tags: map[string]int{}}
+				g = &gen{rt: rt, u: u, w: w, m: m, excl: h.Excluded, nonce: map[string]uint64{}, tags: map[string]int{}}
 			}
 			if blocks >= nb {
 				return hist.Step{}, false
 			}
 			blocks++
+			g.block = blocks
 			var txs []txgen.Tx
-			if rapid.IntRange(0, 5).Draw(rt, "empty") != 0 {
-				n := rapid.IntRange(1, 5).Draw(rt, "ntx")
+			if u.N(6, "empty") != 0 {
+				n := u.Range(1, 5, "ntx")
 				for k := 0; k < n; k++ {
 					txs = append(txs, g.draw())
 				}
 			}
-			spec := sim.BlockSpec{GapSecs: 5, ProposerIdx: rapid.IntRange(0, 6).Draw(rt, "proposer")}
+			spec := sim.BlockSpec{GapSecs: 5, ProposerIdx: u.N(7, "proposer")}
 			for _, x := range txs {
 				spec.Txs = append(spec.Txs, x.Bytes)
 			}
 			st := hist.BlockStep(spec, txs)
-			if rapid.IntRange(0, 3).Draw(rt, "checkfirst") == 0 {
+			if u.N(4, "checkfirst") == 0 {
 				st.Arg = "check-first"
 			}
 			return st, true
